@@ -335,12 +335,16 @@ class Evaluator(object):
             rv = path.env[node.func.value.id]
             recv = rv if isinstance(rv, Rat) else (form.apply("pylist", [tuple(rv)]) if isinstance(rv, list) and all(isinstance(x, Rat) for x in rv) else None)
         self._event("call", path, node, name=rname or norm(node.func), args=args, kwargs=kwargs, recv=recv)
+        call_event = self.events[-1] if self.record and self.events else None
         if self.call_hook is not None:
             r = self.call_hook(self, node, rname, args, kwargs, path)
             if r is not None:
                 return r
+        self._inlined_fully = False
         r = self._inline_unknown(node, fn, rname, args, kwargs, path)
         if r is not None:
+            if self._inlined_fully and call_event is not None and call_event.get("node") is node:
+                call_event["inlined"] = True          # everything the callee did is in the events / values that follow
             return r
         if fn and fn.startswith(self.selfname + ".") and fn.count(".") == 1:
             meth = fn.split(".")[1]
@@ -481,13 +485,21 @@ class Evaluator(object):
         try:
             sub.outcomes = []
             sub_path = Path(env, list(path.conds))
-            sub.exec_block(fdef.body, [sub_path])
+            live = sub.exec_block(fdef.body, [sub_path])
         except Undecided:
             return None
         outs = [o for o in sub.outcomes if o.kind == "return"]
         errs = [o for o in sub.outcomes if o.kind == "error"]
         for o in errs:
             self.outcomes.append(o)
+        # what the callee assigned to attributes of self belongs to the caller's state; with exactly one normal exit it is copied back
+        # (and the call is then fully represented by its inlined events and value)
+        exits = [getattr(o, "env", None) for o in outs] + [p_.env for p_ in live]
+        if len(exits) == 1 and exits[0] is not None and not errs and not any(o.kind == "raise" for o in sub.outcomes):
+            for k, v in exits[0].items():
+                if k.startswith(self.selfname + "."):
+                    path.env[k] = v
+            self._inlined_fully = True
         if not outs:
             return Rat.sym("None")
         base = len(path.conds)
@@ -923,6 +935,24 @@ class Evaluator(object):
                 env[k] = form.apply("ifexp", [c, a, b]) if isinstance(a, Rat) and isinstance(b, Rat) else v1
         out = Path(env, list(base.conds), list(p1.divs) + [d for d in p2.divs if d not in p1.divs],
                    list(p1.logs) + [d for d in p2.logs if d not in p1.logs])
+        # what each branch learned beyond the test itself (a nested if whose other arm left the function): the joined path
+        # continues only if (c and E1) or (not c and E2)
+        nb = len(base.conds) + 1
+        e1, e2 = p1.conds[nb:], p2.conds[nb:]
+        if e1 or e2:
+            def conj(cs):
+                r = None
+                for cc, pol in cs:
+                    if not isinstance(cc, Rat):
+                        continue
+                    t = cc if pol else form.apply("not", [cc])
+                    r = t if r is None else form.apply("and", [r, t])
+                return r
+            E1, E2 = conj(e1), conj(e2)
+            a = c if E1 is None else form.apply("and", [c, E1])
+            nc = form.apply("not", [c])
+            b = nc if E2 is None else form.apply("and", [nc, E2])
+            out.conds.append((form.apply("or", [a, b]), True))
         return out
 
     def known_polarity(self, c, path):
